@@ -123,6 +123,36 @@ Definition semis (node : tree) : WM :=
 
 Definition field (fs : list tree) (k : nat) : tree := nth k fs PNone.
 
+(* _walk_StatIf, after the pairs of a one-line if (the "fix:" commit for an else without statements): the parser
+   drops an `else` that has no statements after it, but its tokens stay inside the node's range.  The writer looks,
+   from the cursor, past white space / newlines / comments that lie before node.end_pos; if the token there (still
+   before node.end_pos) is the keyword `else`, it is written with _get_text and followed by _get_semis.
+   node.exp_block_pairs[-1] of an empty list is an IndexError (the parser never builds one). *)
+Fixpoint skip_trivia_idx (l : list token) (p hi : Z) : Z :=       (* l = the tokens from index p on *)
+  match l with
+  | t :: r => if (p <? hi) && is_trivia t then skip_trivia_idx r (p + 1) hi else p
+  | [] => p
+  end.
+
+Definition node_end (node : tree) : Z := match node with Node _ _ e _ _ => e | _ => 0 end.
+
+Definition dropped_else (node : tree) (pairs : list tree) : WM :=
+  match last pairs (Lst []) with
+  | Lst [PNone; _] => skip                       (* the last pair is an else part: nothing was dropped *)
+  | Lst [_; _] =>
+      with_st (fun st =>
+        let hi := node_end node in
+        let p := skip_trivia_idx (skipn (Z.to_nat (w_pos st)) ts) (w_pos st) hi in
+        match tok_at p with
+        | Some t => if (p <? hi) && tok_eqb t (mkTok CKeyword 0 "else"%bs "else"%bs)
+                    then get_text node "else"%bs >> semis node
+                    else skip
+        | None => skip
+        end)
+  | _ => match pairs with [] => fail_with IndexError | _ => fail_with OtherError end
+  end.
+
+
 (* continue with the code of a token field (node.assignop.code, node.binop.code, ...) *)
 Definition with_code (t : tree) (k : list Z -> WM) : WM :=
   match t with Tok _ tk => k (tcode tk) | _ => fail_with AttributeError end.
@@ -217,7 +247,7 @@ Fixpoint walk (n : nat) (node : tree) {struct n} : WM :=
         txt "repeat"%bs >> indent_by 1 >> w (f 0%nat) >> indent_by (-1) >> txt "until"%bs >> w (f 1%nat)
       else if tag =? tStatIf then
         match f 0%nat with
-        | Lst pairs => if_pairs w node sh true pairs >> (if sh then skip else txt "end"%bs)
+        | Lst pairs => if_pairs w node sh true pairs >> (if sh then dropped_else node pairs else txt "end"%bs)
         | _ => fail_with TypeError
         end
       else if tag =? tStatForStep then
@@ -367,11 +397,11 @@ Fixpoint all_trivia (l : list token) : bool :=
   match l with [] => true | t :: r => is_trivia t && all_trivia r end.
 
 (* LuaASTEchoWriter.to_lines: the end-of-input check (no significant token at or after root.end_pos), the
-   walk, the trailing spaces.  Result: the chunks in order and the final cursor.  There is no check that
-   the cursor reached the end of the token list: when the walk passes fewer tokens than the tree spans
-   (a one-line `if (c) ... else` with an empty else branch at the end of the program) the rest is dropped
-   without an error (finding C09-shortif-empty-else-lost; Proofs/AstWriterTop.v shows that inside the
-   domain of C09_aligned the final cursor is the end of the list). *)
+   walk, the trailing spaces.  Result: the chunks in order and the final cursor.  The code has no check that
+   the cursor reached the end of the token list (only the check before the walk): a walk that passes fewer
+   tokens than the tree spans would drop the rest without an error - as it did for a one-line `if (c) ... else`
+   with an empty else branch at the end of the program before the fix of _walk_StatIf.  Proofs/AstWriterTop.v
+   shows that inside the domain of C09_aligned the final cursor is the end of the list. *)
 Definition writer_chunks (root : tree) : result (list chunk * Z) :=
   match root with
   | Node _ _ e _ _ =>
